@@ -17,6 +17,8 @@ var propRules = map[string][]func(*Ctx){}
 
 func register(prop string, fns ...func(*Ctx)) { propRules[prop] = append(propRules[prop], fns...) }
 
+var verbose bool
+
 func main() {
 	prop := flag.String("prop", "", "property id (C01..C18) or 'all'")
 	tier := flag.String("tier", "", "quick|thorough (default: $VERIF_TIER or quick)")
@@ -25,6 +27,7 @@ func main() {
 	replay := flag.String("replay", "", "violation file to re-evaluate")
 	list := flag.Bool("list", false, "list properties and rules")
 	manifest := flag.String("manifest", "", "write MANIFEST.json to this path and exit")
+	flag.BoolVar(&verbose, "v", false, "print every obligation")
 	flag.Parse()
 	if *tier == "" {
 		*tier = os.Getenv("VERIF_TIER")
